@@ -18,9 +18,13 @@ Model/WOps.lean = the meaning of the Wuffs operators):
 * `assoc_mul_small_correct` / `assoc_mul_unrepaired_undefined`;
 * Props/C04Iterate.lean: `iterate_unroll_equiv`.
 
-NOT proved (`lowering_whole_program_partial`): statement and struct-layout
-lowering as a whole — there is no C statement semantics here; that part of the
-property is covered by the differential execution of harness/cmd/c04 only.
+* Props/C04Stmt.lean: `stmt_lowering_correct` — the control statements (if /
+  while / do-while(0) / break / continue / goto + labels / return) over a C
+  statement semantics with goto, for all programs.
+
+NOT proved (`lowering_whole_program_partial`): the composition of expression
+and statement lowering over a C memory model, struct layout, the function
+prologue, calls — covered by the differential execution of harness/cmd/c04.
 -/
 import WuffsVerif.Props.C04Ops
 
@@ -208,25 +212,23 @@ theorem as_redundant_mask_correct (frm to : WTy) (a : Int) (x : CVal) (m : Nat) 
 example : ceval (env1 ⟨.u16, 0x1234⟩) (.cast .u8 (.hole 0)) = some ⟨.u8, 0x34⟩ := by
   simp [ceval, env1, castTo, wrapU]
 
-/-! ## Whole-program lowering: stated, not proved -/
+/-! ## Whole-program lowering -/
 
--- OPEN: jump_lowering — "a labelled `break.L` / `continue.L` that does not target the
--- innermost loop is lowered to `goto label__L__break` / `goto label__L__continue`
--- (writeStatementJump, writeStatementWhile: `label__L__continue:;` before the `while`,
--- `label__L__break:;` after it; `while true { …; break }` without continue becomes
--- `do { … } while (0)`) and this preserves the successor state of the small-step
--- semantics".  Needs a goto-level C statement semantics, which this development does not
--- have.  Covered by differential execution only (generated programs contain labelled and
--- deep jumps, counted in the evidence as stmt:deep-break / stmt:deep-continue; the mutants
--- "deep break jumps to the continue label" and "deep break emitted as plain break" are
--- both caught).
+-- `jump_lowering` and the lowering of the control statements as a whole (if / else-if /
+-- `if true` / while / do-while(0) / break / continue / goto + labels / return) ARE proved:
+-- Props/C04Stmt.lean `stmt_lowering_correct`, `stmt_lowering_unique`, `jump_lowering_break`,
+-- `jump_lowering_continue`, over a C semantics with structured statements, `goto` and labels
+-- (Model/CStmt.lean), for all programs, states and iteration counts.
 
-/-- Statement / struct-layout lowering as a whole is NOT proved: there is no C
-statement semantics in this development.  What stands in its place is the
-differential execution of harness/cmd/c04 (sampling).  This `_partial` records
-the part that IS proved about statements: an assignment statement's stored
-value (see `compound_assign_correct_*` in Props/C04Assign.lean) and the iterate
-expansion (Props/C04Iterate.lean). -/
+/-- What is still NOT proved about whole programs: the atomic statements are
+opaque in `stmt_lowering_correct` (their stored values are the subject of
+`compound_assign_correct_*` and `lower_correct`, but the composition "every
+assignment of a body computes the same store update" is not assembled into one
+theorem over a C memory model); struct layout (private_impl / private_data),
+the function prologue (receiver / magic / argument checks, zero-initialised
+locals) and calls are covered by the differential execution of
+harness/cmd/c04 only.  This `_partial` records two facts about assignments that
+the execution relies on. -/
 theorem lowering_whole_program_partial :
     (∀ t : WTy, lowerAssign .add t false = some (.compound .add (.hole 1))) ∧
     (∀ t : WTy, lowerAssign .satAdd t false = some (.satIndirect true t (.hole 1))) := by
